@@ -444,6 +444,34 @@ def client_checks(ctx):
     ctx.sample({"client_schema": schema, "styles": "all positional/keyword splits, dict and factory object (unwrap=False)"})
 
 
+def empty_wrappers(ctx):
+    """An operation whose wrapper element has no parameters at all (empty complexType / sequence / choice / all):
+    every positional or keyword argument is a surplus one - rejected, unless extra-argument checking is off."""
+    for inner in ("", "<xsd:sequence/>", "<xsd:choice/>", "<xsd:all/>", "<xsd:sequence><xsd:sequence/></xsd:sequence>"):
+        schema = '<xsd:element name="f"><xsd:complexType>%s</xsd:complexType></xsd:element>' % inner
+        w = wsdlkit.wsdl_doc(schema, "f", None)
+        strict, lax = wsdlkit.client(w, nosend=True), wsdlkit.client(w, nosend=True, extraArgumentErrors=False)
+        for label, a, k in (("none", (), {}), ("surplus positional", ("x",), {}), ("unknown keyword", (), {"zz": 1}),
+                            ("both", ("x", "y"), {"zz": None})):
+            meta = {"stream": "empty-wrapper", "content": inner, "call": label}
+            ctx.case(common.canon(meta), True)
+            try:
+                strict.service.f(*a, **k)
+                got = "accepted"
+            except TypeError:
+                got = "TypeError"
+            except Exception as e:
+                got = repr(e)
+            want = "accepted" if label == "none" else "TypeError"
+            if got != want:
+                ctx.fail("a call of an operation without parameters is not judged by the rule (surplus arguments "
+                         "rejected)", meta, got, want)
+            try:
+                lax.service.f(*a, **k)
+            except TypeError as e:
+                ctx.fail("call rejected although extraArgumentErrors is off", meta, str(e), "accepted")
+
+
 def rpc_and_ports(ctx):
     """(C) the two binding-level sites around the parser: rpc operations bind positional and keyword values alike
     (None included), and same-named operations of two ports are each bound against their own parameters."""
@@ -528,6 +556,7 @@ def run(ctx):
     parser_correspondence(ctx)
     client_checks(ctx)
     rpc_and_ports(ctx)
+    empty_wrappers(ctx)
 
 
 def widen(ctx):
